@@ -221,6 +221,11 @@ package wal
 // The handler is the caller's: nothing is assumed about it except that it does not touch the reader's stream.
 //@ func EntryHandler.call
 //@   ensures rdpos == old(rdpos)
+// Damage inside one file never takes the other files with it: whenever ReplayWALFile gives up because of what it read
+// (the last read failed with a damage-class error), the error it returns is itself in the class that ReplayWALDir
+// skips over (text classification "corrupt" / "invalid") - otherwise the directory replay is fatal and recovery moves
+// every log file aside.
+//@ ghost global walLastReadDamaged bool
 //@ func ReplayWALFile
 //@   safety[C10]
 //@   ghost after call OpenReader#1: walDamage = walDamage + ite(err != nil, 1, 0)
@@ -229,6 +234,9 @@ package wal
 //@   ensures[C10] walDamage >= old(walDamage) && walHandlerErrs >= old(walHandlerErrs)
 //@   ensures[C10] err == nil ==> result0 != nil
 //@   ensures[C10] err != nil ==> walDamage > old(walDamage) || walHandlerErrs > old(walHandlerErrs)
+//@   ensures[C10] err != nil && walLastReadDamaged ==> errhas(err, "corrupt") || errhas(err, "invalid")
+//@   ghost after call (*Reader).ReadEntry#1: walLastReadDamaged = (err != nil && (errhas(err, "corrupt") || errhas(err, "invalid")))
+//@   ghost entry: walLastReadDamaged = false
 //@ loop ReplayWALFile#1
 //@   invariant[C10] walDamage >= old(walDamage) && walHandlerErrs >= old(walHandlerErrs) && ReaderInv(reader)
 //@   invariant[C10] stats != nil
